@@ -193,6 +193,31 @@ func mirrorLoopState(f *ssa.Function) (int, string) {
 			if !covered[[2]int64{p, n - 1 - p}] {
 				what := fmt.Sprintf("position %d is never compared with the complement of its mirror position %d", p, n-1-p)
 				if p == n-1-p {
+					// the centre may be looked at by a test of its own, outside the mirror loop
+					// (a list of the codes that are their own complement): what is asked there is not read
+					inLoop := naturalLoopOf(hdr)
+					outside := false
+					eachInstr(f, func(i ssa.Instruction) {
+						if inLoop[i.Block()] {
+							return
+						}
+						for lb := range inLoop {
+							if lb != hdr && lb.Dominates(i.Block()) {
+								return // a way out of the loop body (the verdict for the pair just compared)
+							}
+						}
+						switch x := i.(type) {
+						case *ssa.Index:
+							outside = outside || isTextType(x.X.Type())
+						case *ssa.Lookup:
+							outside = outside || isTextType(x.X.Type())
+						case *ssa.IndexAddr:
+							outside = outside || isTextType(x.X.Type())
+						}
+					})
+					if outside {
+						return unknown, fmt.Sprintf("for a sequence of length %d the centre base is not compared inside the mirror loop; a letter of the sequence is read outside the loop, and what is asked of it there is not read", n)
+					}
 					what = fmt.Sprintf("the centre base (position %d) is never compared with its own complement, so an odd-length sequence with matching flanks counts as palindromic", p)
 				}
 				return broken, fmt.Sprintf("for a sequence of length %d %s", n, what)
